@@ -1,4 +1,5 @@
 import SpoxModel.Lemmas.Types
+import SpoxModel.Lemmas.TypesBroadcastConv
 import SpoxModel.Generated.Dtypes
 import SpoxModel.Generated.TypeOverrides
 /-!
@@ -396,6 +397,128 @@ theorem broadcast_rank (a b : Shape) (c : Shape) (h : broadcast a b = some c) :
 /-- **Both operand orders give the same answer.** -/
 theorem broadcast_comm (a b : Shape) : broadcast a b = broadcast b a := Types.broadcast_comm a b
 
+/-! ### Round 10: the raising side is exact (converse), for `broadcast` and `can_broadcast`, every spelling -/
+
+/-- **A static broadcast that succeeds is justified**: there are concrete runtime shapes conforming to the two
+    operands that numpy broadcasts (any ranks, any mix of constant / named / anonymous dimensions, unknown rank).
+    Converse of `broadcast_raises_only_if_impossible`. -/
+theorem broadcast_succeeds_only_if_possible (a b c : Shape) (h : broadcast a b = some c) :
+    ∃ sa sb s, confShape sa a ∧ confShape sb b ∧ npBroadcast sa sb = some s :=
+  Types.broadcast_possible a b c h
+
+/-- **`ShapeError` exactly when no conforming values could broadcast** (both directions). -/
+theorem broadcast_raises_iff_impossible (a b : Shape) :
+    broadcast a b = none ↔ ∀ sa sb, confShape sa a → confShape sb b → npBroadcast sa sb = none := by
+  constructor
+  · intro h sa sb ha hb; exact broadcast_raises_only_if_impossible a b sa sb h ha hb
+  · intro h
+    cases hb : broadcast a b with
+    | none => rfl
+    | some c =>
+      obtain ⟨sa, sb, s, ha, hb', hs⟩ := broadcast_succeeds_only_if_possible a b c hb
+      rw [h sa sb ha hb'] at hs; cases hs
+
+/-- **`can_broadcast` is exact for every spelling of the operand**: `True` iff some conforming runtime shapes
+    broadcast under numpy's rule. -/
+theorem canBroadcast_exact (a : Shape) (o : ShapeArg) :
+    canBroadcast a o = true ↔ ∃ sa sb s, confShape sa a ∧ confShape sb o.resolve ∧ npBroadcast sa sb = some s := by
+  constructor
+  · intro h
+    simp only [canBroadcast, broadcastArg, Option.isSome_iff_exists] at h
+    obtain ⟨c, hc⟩ := h
+    exact broadcast_succeeds_only_if_possible a o.resolve c hc
+  · intro ⟨sa, sb, s, ha, hb, hs⟩
+    cases hc : canBroadcast a o with
+    | true => rfl
+    | false => rw [canBroadcast_false_only_if_impossible a o sa sb hc ha hb] at hs; cases hs
+
+/-- ... and the shape claimed on success is itself inhabited by the numpy result of those witnesses
+    (`broadcast_sound` applied to them): success always comes with a concrete confirming instance. -/
+theorem broadcast_success_confirmed (a b c : Shape) (h : broadcast a b = some c) :
+    ∃ sa sb s, confShape sa a ∧ confShape sb b ∧ npBroadcast sa sb = some s ∧ confShape s c := by
+  obtain ⟨sa, sb, s, ha, hb, hs⟩ := broadcast_succeeds_only_if_possible a b c h
+  exact ⟨sa, sb, s, ha, hb, hs, broadcast_sound a b c sa sb s h ha hb hs⟩
+
+
+/-! ### Round 10: broadcasting dimension by dimension from the right; glue of the type layer -/
+
+/-- **`Shape.broadcast` on shapes of known rank, dimension by dimension from the right** (a refinement to the
+    obvious specification): the rank of the result is the larger rank and its dimension `-1-i` is
+    `_broadcast_elem` of the operands' dimensions `-1-i`, a missing axis counting as 1 — whatever the two ranks
+    (the swap and the left padding of the implementation disappear). -/
+theorem broadcast_dimwise (a b c : List Natural) (h : broadcast (some a) (some b) = some (some c)) :
+    c.length = max a.length b.length ∧ ∀ i, bElem (rdim a i) (rdim b i) = some (rdim c i) :=
+  Types.broadcast_dimwise a b c h
+
+/-- The same through the real indexing (`Shape.__getitem__` with a negative index) on every axis both operands have. -/
+theorem broadcast_getItem (a b c : List Natural) (h : broadcast (some a) (some b) = some (some c))
+    (i : Nat) (hi : i < a.length) (hj : i < b.length) :
+    ∃ x y z, Shape.getItem (some a) (-1 - (i : Int)) = some x ∧ Shape.getItem (some b) (-1 - (i : Int)) = some y ∧
+      Shape.getItem (some c) (-1 - (i : Int)) = some z ∧ bElem x y = some z := by
+  obtain ⟨hl, hd⟩ := broadcast_dimwise a b c h
+  exact ⟨rdim a i, rdim b i, rdim c i, rdim_getItem a i hi, rdim_getItem b i hj,
+    rdim_getItem c i (by omega), hd i⟩
+
+/-- On the axes only the longer operand has, the result is that operand's dimension, verbatim (name included). -/
+theorem broadcast_getItem_longer (a b c : List Natural) (h : broadcast (some a) (some b) = some (some c))
+    (i : Nat) (hi : a.length ≤ i) (hj : i < b.length) :
+    Shape.getItem (some c) (-1 - (i : Int)) = Shape.getItem (some b) (-1 - (i : Int)) := by
+  obtain ⟨hl, hd⟩ := broadcast_dimwise a b c h
+  rw [rdim_getItem b i hj, rdim_getItem c i (by omega)]
+  have ha : rdim a i = .const 1 := by
+    simp only [rdim]
+    rw [List.getElem?_eq_none (by simp; omega)]; rfl
+  have := hd i
+  rw [ha] at this
+  have h1 : ∀ y : Natural, bElem (.const 1) y = some y := by
+    intro y; cases y <;> grind [bElem]
+  rw [h1] at this
+  exact this.symm
+
+/-- **`Shape.broadcast` raises exactly when some right-aligned axis clashes** (shapes of known rank, any ranks):
+    together with `broadcast_dimwise` this is the complete dimension-by-dimension specification of the function. -/
+theorem broadcast_raises_iff_axis_clash (a b : List Natural) :
+    broadcast (some a) (some b) = none ↔ ∃ i, bElem (rdim a i) (rdim b i) = none :=
+  Types.broadcast_none_iff_clash a b
+
+/-- The boundary judgement accepts every constructible type for itself. -/
+theorem subtype_refl (a : Ty) (ha : WF a) : subtype table a a = true := by
+  rw [subtype_iff_common_value a a ha ha.2]
+  exact ⟨wit a a, (wit_spec a a ((compat_iff_common_value a a).2
+    ⟨inh a, (inh_spec a).1, (inh_spec a).2, (inh_spec a).2⟩)).1,
+    (wit_spec a a ((compat_iff_common_value a a).2 ⟨inh a, (inh_spec a).1, (inh_spec a).2, (inh_spec a).2⟩)).2⟩
+
+/-- ... but it is not an order: "can describe a common value" is not transitive (`(2,)` ~ `('N',)` ~ `(3,)`),
+    which is why `_subtype` must not be chained through an intermediate type. -/
+theorem subtype_not_transitive :
+    ∃ a b c : Ty, subtype table a b = true ∧ subtype table b c = true ∧ subtype table a c = false :=
+  ⟨.tensor 3 (some [.const 2]), .tensor 3 (some [.unk "N"]), .tensor 3 (some [.const 3]), by decide +kernel⟩
+
+/-- **`unwrap_tensor` / `unwrap_sequence` / `unwrap_optional`**: on every type a program can build exactly one of
+    the three succeeds, and it returns the type unchanged. -/
+theorem unwrap_exactly_one (t : Ty) (h : t.anyFree = true) :
+    (unwrapTensor t = some t ∧ unwrapSeq t = none ∧ unwrapOpt t = none) ∨
+    (unwrapTensor t = none ∧ unwrapSeq t = some t ∧ unwrapOpt t = none) ∨
+    (unwrapTensor t = none ∧ unwrapSeq t = none ∧ unwrapOpt t = some t) := by
+  cases t <;> simp_all [unwrapTensor, unwrapSeq, unwrapOpt, Ty.anyFree]
+
+/-- **Compatible types have the same constructor, as the unwrap functions see it**: if the boundary judgement
+    accepts `a` for `b`, whichever unwrap succeeds on `b` succeeds on `a` (and vice versa). -/
+theorem compat_same_unwrap (a b : Ty) (ha : WF a) (hb : WF b) (h : subtype table a b = true) :
+    (unwrapTensor a).isSome = (unwrapTensor b).isSome ∧ (unwrapSeq a).isSome = (unwrapSeq b).isSome ∧
+      (unwrapOpt a).isSome = (unwrapOpt b).isSome := by
+  rw [subtype_exact a b ha hb.2] at h
+  have ha' := ha.1
+  have hb' := hb.1
+  cases a <;> cases b <;> simp_all [compat, unwrapTensor, unwrapSeq, unwrapOpt, Ty.anyFree]
+
+/-- **`_is_concrete`**: a Tensor is concrete iff its rank is known (`Shape.__bool__`); a Sequence or Optional is
+    concrete whatever it contains (only `Tensor` overrides `_assert_concrete` — a quirk the model reproduces). -/
+theorem isConcrete_spec (e : Nat) (s : Shape) (t : Ty) :
+    isConcrete (.tensor e s) = s.truthy ∧ s.truthy = s.maybeRank.isSome ∧
+      isConcrete (.seq t) = true ∧ isConcrete (.opt t) = true := by
+  cases s <;> simp [isConcrete, Shape.truthy, Shape.maybeRank]
+
 /-! ## What the model covers (tie G: inventory of the type layer's classes and deciding methods) -/
 
 /-- Obligation: the classes deriving from `Type` / `Natural` / `Shape` anywhere under `src/spox`, their
@@ -441,5 +564,18 @@ example : broadcastArg (some [.const 2, .const 1]) (.simple (some [.str "N"])) =
 example : canBroadcast (some [.const 2]) (.simple (some [.int 3])) = false := by decide
 example : compat (.seq (.tensor 7 (some [.const 2]))) (.seq (.tensor 7 (some [.unk "N"]))) = true := by decide
 example : compat (.tensor 7 (some [.const 2])) (.tensor 7 (some [.const 3])) = false := by decide
+-- round 10: exactness of the raising side on instances (a name against a constant succeeds, two constants do not)
+example : canBroadcast (some [.unk "N", .const 3]) (.simple (some [.int 2, .int 1])) = true := by decide
+example : ¬ ∃ sa sb s, confShape sa (some [.const 2]) ∧ confShape sb (some [.const 3]) ∧ npBroadcast sa sb = some s := by
+  intro ⟨sa, sb, s, ha, hb, hs⟩
+  have := (broadcast_raises_iff_impossible (some [.const 2]) (some [.const 3])).1 (by decide) sa sb ha hb
+  rw [this] at hs; cases hs
+
+-- round 10: ('N', 3) against (2, 1, 1): rank 3, the last axis is 3, the middle one the name, the first one 2
+example : broadcast (some [.unk "N", .const 3]) (some [.const 2, .const 1, .const 1]) = some (some [.const 2, .unk "N", .const 3]) ∧
+    rdim [.unk "N", .const 3] 2 = .const 1 ∧ Shape.getItem (some [.unk "N", .const 3]) (-2) = some (.unk "N") ∧
+    Shape.getItem (some [.unk "N", .const 3]) (-3) = none ∧ Shape.getItem none 0 = none := by decide
+example : unwrapSeq (.seq (.tensor 1 none)) = some (.seq (.tensor 1 none)) ∧ unwrapTensor (.seq (.tensor 1 none)) = none ∧
+    isConcrete (.tensor 1 none) = false ∧ isConcrete (.seq (.tensor 1 none)) = true := by decide
 
 end C13
